@@ -18,10 +18,22 @@ def AInv (dbi : Option Info) (c? : Option CacheAcct) (t? : Option Transition) (b
   | none => t? = none ∧ b? = none ∧ Ri = Pi ∧ Rs = Ps ∧ Mi = Pi ∧ Ms = Ps
   | some c => CInv c Ri Rs ∧ ∃ ms, GInv t? c ms Mi Ms Ri Rs ∧ Facts ms Mi Ms ∧ BInv b? ms Pi Ps Mi Ms
 
+/-- an address with a storage-wiping revert in some block is in the bundle with a destroyed-family status -/
+def WipeInv (b : BState) : Prop :=
+  ∀ blk, blk ∈ b.reverts → ∀ a r, (a, r) ∈ blk → r.wipe = true →
+    ∃ o, b.state.get a = some o ∧ o.status.wasDestroyed = true
+
+/-- the blocks have unique addresses, and an address has a storage-wiping revert in at most one block -/
+def WipeOnce (b : BState) : Prop :=
+  (∀ blk, blk ∈ b.reverts → WF blk) ∧
+  b.reverts.Pairwise (fun blk1 blk2 => ∀ a r1 r2, (a, r1) ∈ blk1 → r1.wipe = true → (a, r2) ∈ blk2 → r2.wipe = true → False)
+
 /-- `p0` = plain state when the bundle was started, `Mp` = reference state at the last merge, `R` = now -/
 structure SInv (s : SState) (p0 Mp R : Plain) : Prop where
   wfts : WF s.ts
   wfb : WF s.bundle.state
+  wipe : WipeInv s.bundle
+  once : WipeOnce s.bundle
   acct : ∀ a, AInv (s.db.get a) (s.cache.get a) (s.ts.get a) (s.bundle.state.get a)
     (p0.acct a) (fun k => p0.slot a k) (Mp.acct a) (fun k => Mp.slot a k) (R.acct a) (fun k => R.slot a k)
 
@@ -184,11 +196,15 @@ theorem step_inv (s : SState) (p0 Mp R : Plain) (a : Nat) (ea : EvmAcct) (h : SI
   obtain ⟨c', tr, hap, hC', hG'⟩ := apply_event s.sc (s.load a).2 (s.ts.get a) ms _ _ _ _ ea hC hG hev
   have hst : stepAcct s (a, ea) = some (stepRes (s.load a).1 a c' tr) := by
     simp only [stepAcct, hsc, hap]
-  refine ⟨_, hst, ⟨?_, ?_, fun a' => ?_⟩, hsc, hbu⟩
+  refine ⟨_, hst, ⟨?_, ?_, ?_, ?_, fun a' => ?_⟩, hsc, hbu⟩
   · show WF (addT (s.load a).1.ts a tr)
     rw [hts]; exact addT_WF _ _ _ h.wfts
   · show WF (s.load a).1.bundle.state
     rw [hbu]; exact h.wfb
+  · show WipeInv (s.load a).1.bundle
+    rw [hbu]; exact h.wipe
+  · show WipeOnce (s.load a).1.bundle
+    rw [hbu]; exact h.once
   · show AInv ((s.load a).1.db.get a') (((s.load a).1.cache.set a c').get a') ((addT (s.load a).1.ts a tr).get a')
       ((s.load a).1.bundle.state.get a') _ _ _ _ _ _
     have hw : ea.touched = true → WF ea.storage := fun ht => (hev ht).wf
@@ -412,14 +428,21 @@ theorem merge_inv (s : SState) (p0 Mp R : Plain) (h : SInv s p0 Mp R) :
     ∃ c, s.cache.get a = some c ∧ CInv c (R.acct a) (fun k => R.slot a k) ∧
       TInv t c (Mp.acct a) (fun k => Mp.slot a k) (fun k => R.slot a k) ∧
       Facts t.prevStatus (Mp.acct a) (fun k => Mp.slot a k) ∧
-      BInv b? t.prevStatus (p0.acct a) (fun k => p0.slot a k) (Mp.acct a) (fun k => Mp.slot a k)
+      BInv b? t.prevStatus (p0.acct a) (fun k => p0.slot a k) (Mp.acct a) (fun k => Mp.slot a k) ∧
+      b? = s.bundle.state.get a
   let Post : Nat → Transition → Option BAcct → Option ARevert → Prop := fun a t b?' rev =>
     (∀ c, s.cache.get a = some c → BInv b?' c.status (p0.acct a) (fun k => p0.slot a k) (R.acct a) (fun k => R.slot a k)) ∧
-    RevSem rev t.prevStatus (fun k => p0.slot a k) (Mp.acct a) (fun k => Mp.slot a k) (R.acct a) (fun k => R.slot a k)
+    RevSem rev t.prevStatus (fun k => p0.slot a k) (Mp.acct a) (fun k => Mp.slot a k) (R.acct a) (fun k => R.slot a k) ∧
+    (∀ r, rev = some r → r.wipe = true →
+      (∃ o', b?' = some o' ∧ o'.status.wasDestroyed = true) ∧
+      (∀ o, s.bundle.state.get a = some o → o.status.wasDestroyed = false)) ∧
+    (∀ o, s.bundle.state.get a = some o → o.status.wasDestroyed = true →
+      ∃ o', b?' = some o' ∧ o'.status.wasDestroyed = true)
   have hstep : ∀ a t b?, Pre a t b? → ∃ b?' rev, oneAcct b? t = some (b?', rev) ∧ Post a t b?' rev := by
-    intro a t b? ⟨c, hc, hC, hT, hF, hB⟩
-    obtain ⟨b?', rev, h1, h2, h3⟩ := merge_acct b? t c _ _ _ _ _ _ hB hF hT hC
-    exact ⟨b?', rev, h1, fun c' hc' => by rw [hc] at hc'; injection hc' with hc'; rw [← hc']; exact h2, h3⟩
+    intro a t b? ⟨c, hc, hC, hT, hF, hB, hbe⟩
+    obtain ⟨b?', rev, h1, h2, h3, h4, h5⟩ := merge_acct_wipe b? t c _ _ _ _ _ _ hB hF hT hC
+    rw [hbe] at h4 h5
+    exact ⟨b?', rev, h1, fun c' hc' => by rw [hc] at hc'; injection hc' with hc'; rw [← hc']; exact h2, h3, h4, h5⟩
   have hpre : ∀ a t, BMap.get s.ts a = some t → Pre a t (s.bundle.state.get a) := by
     intro a t ht
     obtain ⟨_, _, hrest⟩ := h.acct a
@@ -429,12 +452,48 @@ theorem merge_inv (s : SState) (p0 Mp R : Plain) (h : SInv s p0 Mp R) :
       rw [hc, ht] at hrest
       obtain ⟨hC, ms, ⟨hT, hms⟩, hF, hB⟩ := hrest
       rw [hms] at hF hB
-      exact ⟨c, hc, hC, hT, hF, hB⟩
+      exact ⟨c, hc, hC, hT, hF, hB, rfl⟩
   obtain ⟨b', revs', g1, g2, g3, g4, g5, g6⟩ := go_fold Pre Post hstep s.ts s.bundle [] h.wfts h.wfb WF_nil
     (fun _ _ _ => rfl) hpre
   have hm : s.merge true = some ⟨s.db, s.sc, s.cache, [], ⟨b'.state, b'.contracts, b'.reverts ++ [revs']⟩⟩ := by
     simp only [SState.merge, applyTransitions, g1, Option.map]
-  refine ⟨_, revs', hm, ⟨WF_nil, g2, fun a => ?_⟩, rfl, rfl, by simp only [g3], g4, fun a => ?_⟩
+  have hkeep : ∀ a o, s.bundle.state.get a = some o → o.status.wasDestroyed = true →
+      ∃ o', b'.state.get a = some o' ∧ o'.status.wasDestroyed = true := by
+    intro a o ho hwd
+    cases ht : s.ts.get a with
+    | none => rw [(g5 a ht).1]; exact ⟨o, ho, hwd⟩
+    | some t => exact (g6 a t ht).2.2.2 o ho hwd
+  have hnew : ∀ a r, (a, r) ∈ revs' → r.wipe = true →
+      (∃ o', b'.state.get a = some o' ∧ o'.status.wasDestroyed = true) ∧
+      (∀ o, s.bundle.state.get a = some o → o.status.wasDestroyed = false) := by
+    intro a r hm hw
+    have hgr := get_some_of_mem revs' g4 a r hm
+    cases ht : s.ts.get a with
+    | none => rw [(g5 a ht).2] at hgr; cases hgr
+    | some t => exact (g6 a t ht).2.2.1 r hgr hw
+  refine ⟨_, revs', hm, ⟨WF_nil, g2, ?_, ?_, fun a => ?_⟩, rfl, rfl, by simp only [g3], g4, fun a => ?_⟩
+  · intro blk hblk a r hmem hw
+    show ∃ o, b'.state.get a = some o ∧ _
+    simp only [g3, List.mem_append, List.mem_singleton] at hblk
+    cases hblk with
+    | inl h1 =>
+      obtain ⟨o, ho, hwd⟩ := h.wipe blk h1 a r hmem hw
+      exact hkeep a o ho hwd
+    | inr h1 => subst h1; exact (hnew a r hmem hw).1
+  · constructor
+    · intro blk hblk
+      simp only [g3, List.mem_append, List.mem_singleton] at hblk
+      cases hblk with
+      | inl h1 => exact h.once.1 blk h1
+      | inr h1 => subst h1; exact g4
+    · show List.Pairwise _ (b'.reverts ++ [revs'])
+      rw [g3, List.pairwise_append]
+      refine ⟨h.once.2, List.pairwise_singleton _ _, fun blk1 h1 blk2 h2 a r1 r2 hm1 hw1 hm2 hw2 => ?_⟩
+      simp only [List.mem_singleton] at h2
+      subst h2
+      obtain ⟨o, ho, hwd⟩ := h.wipe blk1 h1 a r1 hm1 hw1
+      have := (hnew a r2 hm2 hw2).2 o ho
+      rw [hwd] at this; cases this
   · show AInv (s.db.get a) (s.cache.get a) (BMap.get [] a) (b'.state.get a) _ _ _ _ _ _
     obtain ⟨hP1, hP2, hrest⟩ := h.acct a
     refine ⟨hP1, hP2, ?_⟩
@@ -473,7 +532,7 @@ theorem merge_inv (s : SState) (p0 Mp R : Plain) (h : SInv s p0 Mp R) :
         rw [hc, ht] at hrest
         obtain ⟨_, ms, ⟨q1, q2, _⟩, _, _⟩ := hrest
         exact ⟨q1, fun k => by rw [q2]⟩
-    | some t => exact ⟨t.prevStatus, (g6 a t ht).2⟩
+    | some t => exact ⟨t.prevStatus, (g6 a t ht).2.1⟩
 
 /-! ## merge groups and histories -/
 
@@ -501,10 +560,19 @@ def BlocksSem (p0 : Plain) (blks : List (BMap ARevert)) (R : Plain) (refs : List
   ∀ (k : Nat) blk before after, blks[k]? = some blk → (R :: refs)[k]? = some before → refs[k]? = some after →
     BlockSem blk p0 before after
 
+/-- reference state after a history -/
+def histEnd (sc : Bool) (p : Plain) (h : List Group) : Plain := h.foldl (groupEnd sc) p
+
+theorem reachHistory_append (sc : Bool) (p : Plain) (h1 h2 : List Group) :
+    reachHistory sc p (h1 ++ h2) = (reachHistory sc p h1 && reachHistory sc (histEnd sc p h1) h2) := by
+  induction h1 generalizing p with
+  | nil => simp [reachHistory, histEnd]
+  | cons g gs ih => simp only [List.cons_append, reachHistory, ih, histEnd, List.foldl, Bool.and_assoc]
+
 theorem runHistory_inv (sc : Bool) (p0 : Plain) (h : List Group) (s : SState) (R : Plain) (hi : SInv s p0 R R)
     (hsc : s.sc = sc) (hr : reachHistory sc R h = true) :
     ∃ l, runHistory s R h = some l ∧ l.length = h.length ∧
-      ∀ s' r, l.getLast? = some (s', r) → SInv s' p0 r r ∧ s'.ts = [] ∧
+      ∀ s' r, l.getLast? = some (s', r) → SInv s' p0 r r ∧ s'.ts = [] ∧ r = histEnd sc R h ∧
         ∃ blks, s'.bundle.reverts = s.bundle.reverts ++ blks ∧ BlocksSem p0 blks R (l.map (·.2)) := by
   induction h generalizing s R with
   | nil => exact ⟨[], rfl, rfl, fun s' r hl => by simp at hl⟩
@@ -518,7 +586,10 @@ theorem runHistory_inv (sc : Bool) (p0 : Plain) (h : List Group) (s : SState) (R
       simp only [List.getLast?_singleton, Option.some.injEq, Prod.mk.injEq] at hl
       obtain ⟨hl1, hl2⟩ := hl
       subst hl1; subst hl2
-      refine ⟨g2, g3, [blk], g5, rfl, fun k b before after hb hbe haf => ?_⟩
+      have hgs : gs = [] := by cases gs with
+        | nil => rfl
+        | cons _ _ => simp at q2
+      refine ⟨g2, g3, by rw [hgs]; rfl, [blk], g5, rfl, fun k b before after hb hbe haf => ?_⟩
       cases k with
       | zero =>
         simp only [List.getElem?_cons_zero, Option.some.injEq, List.map] at hb hbe haf
@@ -526,8 +597,8 @@ theorem runHistory_inv (sc : Bool) (p0 : Plain) (h : List Group) (s : SState) (R
       | succ k => simp at hb
     | cons x xs =>
       rw [List.getLast?_cons_cons] at hl
-      obtain ⟨w1, w2, blks, w3, w4, w5⟩ := q3 s' r hl
-      refine ⟨w1, w2, blk :: blks, by rw [w3, g5, List.append_assoc]; rfl, by simp [w4], fun k b before after hb hbe haf => ?_⟩
+      obtain ⟨w1, w2, w2', blks, w3, w4, w5⟩ := q3 s' r hl
+      refine ⟨w1, w2, by rw [w2']; rfl, blk :: blks, by rw [w3, g5, List.append_assoc]; rfl, by simp [w4], fun k b before after hb hbe haf => ?_⟩
       cases k with
       | zero =>
         simp only [List.getElem?_cons_zero, Option.some.injEq, List.map] at hb hbe haf
@@ -539,6 +610,22 @@ theorem runHistory_inv (sc : Bool) (p0 : Plain) (h : List Group) (s : SState) (R
 /-- the invariant holds for a fresh `State` over a database that agrees with the plain state -/
 theorem init_inv (db : BMap Info) (sc : Bool) (p0 : Plain) (hdb : dbMatches db p0) (hwf : plainWF p0) :
     SInv { db := db, sc := sc } p0 p0 p0 :=
-  ⟨WF_nil, WF_nil, fun a => ⟨hdb a, hwf a, rfl, rfl, rfl, rfl, rfl, rfl⟩⟩
+  ⟨WF_nil, WF_nil, fun blk hb => (by cases hb), ⟨fun blk hb => (by cases hb), List.Pairwise.nil⟩,
+    fun a => ⟨hdb a, hwf a, rfl, rfl, rfl, rfl, rfl, rfl⟩⟩
+
+/-- the reference state keeps no storage under absent accounts -/
+theorem plainWF_of_inv (s : SState) (p0 Mp R : Plain) (h : SInv s p0 Mp R) : plainWF R := by
+  intro a ha k
+  obtain ⟨_, hP2, hrest⟩ := h.acct a
+  cases hc : s.cache.get a with
+  | none =>
+    rw [hc] at hrest
+    obtain ⟨_, _, q3, q4, _, _⟩ := hrest
+    have := hP2 (by rw [← q3]; exact ha) k
+    rw [← this]; exact congrFun q4 k
+  | some c =>
+    rw [hc] at hrest
+    obtain ⟨hC, _⟩ := hrest
+    exact hC.facts.none_zero (info_of_Ri_none hC ha) k
 
 end Revm.Proofs.Bundle
